@@ -353,9 +353,13 @@ enum Either {
 fn run_kind<C: Consumer>(kind: &str, toks: &[&str], salt: usize, c: C) -> (Vec<String>, Built) {
 	let mut out = Vec::new();
 	match kind {
-		"array" => {
+		// `arrayd` / `objectd`: the builder comes from `Default` (here: what `std::mem::take` leaves behind) instead of `new()`
+		"array" | "arrayd" => {
 			let items: Vec<Item> = toks.iter().enumerate().map(|(i, t)| parse_item(t, salt + i)).collect();
 			let mut b = ArrayParams::new();
+			if kind == "arrayd" {
+				let _ = std::mem::take(&mut b);
+			}
 			for it in &items {
 				let r = catch_unwind(AssertUnwindSafe(|| insert_array(&mut b, it)));
 				match r {
@@ -365,7 +369,7 @@ fn run_kind<C: Consumer>(kind: &str, toks: &[&str], salt: usize, c: C) -> (Vec<S
 			}
 			(out, c.consume(b))
 		}
-		"object" => {
+		"object" | "objectd" => {
 			let pairs: Vec<(String, Item)> = toks
 				.iter()
 				.enumerate()
@@ -375,6 +379,9 @@ fn run_kind<C: Consumer>(kind: &str, toks: &[&str], salt: usize, c: C) -> (Vec<S
 				})
 				.collect();
 			let mut b = ObjectParams::new();
+			if kind == "objectd" {
+				let _ = std::mem::take(&mut b);
+			}
 			for (k, it) in &pairs {
 				let r = catch_unwind(AssertUnwindSafe(|| insert_object(&mut b, k, it)));
 				match r {
